@@ -220,8 +220,14 @@ def char_scan(run, m, F, E):
                 continue
             nm, bv = cur[0]
             ev2 = e.get(nm)
-            if not (isinstance(ev2, PtrV) and s2.is_eq0(ev2.off - bv.off - 1) is True):
-                p3.append('the scan advances by %r per rejected unit, not 1' % ((ev2.off - bv.off) if isinstance(ev2, PtrV) else '?',))
+            if not isinstance(ev2, PtrV):
+                und.append('scan cursor after the iteration not tracked')
+            elif s2.is_eq0(ev2.off - bv.off - 1) is not True:
+                env = s2.find_model([ev2.off - bv.off], lambda vv: vv[0] != 1)
+                if env is not None or s2.is_eq0(ev2.off - bv.off - 1) is False:
+                    p3.append('the scan advances by %r per rejected unit, not 1%s' % (ev2.off - bv.off, '; witness ' + own.fmt_env(env) if env else ''))
+                else:
+                    und.append('advance of the scan per rejected unit (%r) not decided' % (ev2.off - bv.off,))
         elif o.kind == 'ret':
             nr += 1
             v = o.val
@@ -229,7 +235,12 @@ def char_scan(run, m, F, E):
                 if len(cur) == 1 and s2.is_eq0(v.off - cur[0][1].off) is not True:
                     p2.append('returns position %r, the unit examined last is at %r' % (v.off, cur[0][1].off))
                 if not (s2.is_ge0(v.off) is True and s2.is_ge0(Lin.atom('hsize') - v.off - 1) is True):
-                    p2.append('returns a position outside the haystack')
+                    d0, d1 = v.off, Lin.atom('hsize') - v.off - 1
+                    env = s2.find_model([d0, d1], lambda vv: vv[0] < 0 or vv[1] < 0)
+                    if env is not None:
+                        p2.append('returns a position outside the haystack; witness %s' % own.fmt_env(env))
+                    else:
+                        und.append('the returned position %r is not decided to lie inside the haystack' % (v.off,))
             elif isinstance(v, PtrV) and v.obj is None:
                 if len(cur) == 1 and s2.is_ge0(cur[0][1].off - Lin.atom('hsize')) is not True:
                     p2.append('gives up at position %r before the end of the haystack' % (cur[0][1].off,))
